@@ -168,8 +168,10 @@ fn judge_burst(kind: Kind, cap: u8, r: &Recorded) -> Option<(String, String)> {
 }
 
 /// sound checks for long histories
-pub fn judge_long(kind: Kind, cap: usize, r: &Recorded) -> Option<(String, String)> {
-    let k = format!("free/{:?}", kind);
+pub fn judge_long(kind: Kind, cap: usize, r: &Recorded) -> Option<(String, String)> { judge_long_labelled(&format!("free/{:?}", kind), kind.is_stack(), cap, r) }
+
+/// the same checks for any bounded container whose history is given as insertions / removals (`k`: signature prefix)
+pub fn judge_long_labelled(k: &str, is_stack: bool, cap: usize, r: &Recorded) -> Option<(String, String)> {
     let last = r.ops.iter().map(|o| o.ret).max().unwrap_or(0) + 1;
     let mut put: HashMap<u64, &Op> = HashMap::new();
     let mut got: HashMap<u64, (u64, u64, u8)> = HashMap::new();      // value -> (call, ret, thread) of its removal
@@ -251,7 +253,7 @@ pub fn judge_long(kind: Kind, cap: usize, r: &Recorded) -> Option<(String, Strin
     // order
     let mut vals: Vec<(u64, u64, u64, u64, u64)> = put.iter().map(|(v, p)| (p.call, p.ret, got[v].0, got[v].1, *v)).collect();   // (put call, put ret, get call, get ret, v)
     vals.sort();
-    if !kind.is_stack() {
+    if !is_stack {
         // FIFO: put(a) wholly before put(b), yet get(b) wholly before get(a)
         let mut by_put_ret: Vec<(u64, u64, u64)> = vals.iter().map(|x| (x.1, x.2, x.4)).collect();      // (put ret, get call, v)
         by_put_ret.sort();
